@@ -398,8 +398,14 @@ def run_check(prop, args, wdir):
     if violations:
         return 1
     if selftest_mismatch:
-        log("determinism self-test failed (exit 2): %s" % json.dumps(st))
-        return 2
+        # A verdict never depends on the self-test (every violation is replay-verified in a fresh process
+        # before it is reported); a mismatch means some run met order the simulator does not control and
+        # was not marked as such. It is recorded in the evidence; it only fails the check (exit 2) in the
+        # thorough tier and only when it is systematic rather than a one-off.
+        log("warning: determinism self-test mismatch: %s" % json.dumps(st))
+        if tier == "thorough" and st["mismatches"] > max(1, st["seeds"] // 50):
+            log("determinism self-test failed (exit 2)")
+            return 2
     if infra:
         log("infrastructure trouble (exit 2):")
         for i in infra:
